@@ -634,4 +634,58 @@ theorem nullfail_tightening : EvalTightening (fun fl b => { fl with nullfail := 
   dTapVer := fun _ _ => rfl
   dWitProg := fun _ _ => rfl
 
+/-! ### MINIMALIF -/
+
+def setMinimalif (c : Ctx) (b : Bool) : Ctx := { c with flags := { c.flags with minimalif := b } }
+
+theorem setMinimalif_agree (c : Ctx) (b : Bool) : SigAgree c (setMinimalif c b) :=
+  ⟨fun _ => rfl, fun _ _ => rfl, rfl, rfl, rfl⟩
+
+theorem opCheckMultisig_minimalif (c : Ctx) (b v : Bool) (st : St) :
+    opCheckMultisig (setMinimalif c b) st v = opCheckMultisig c st v := by
+  unfold opCheckMultisig
+  simp only [multisigLoop_congr (setMinimalif_agree c b), multisigStrip_congr (setMinimalif_agree c b)]
+  rfl
+
+theorem opIf_minimalif_mono (c : Ctx) (st : St) (n : Bool) :
+    MonoR (opIf (setMinimalif c true) st n) (opIf (setMinimalif c false) st n) := by
+  unfold opIf
+  have e : ∀ b, (setMinimalif c b).sv = c.sv := fun _ => rfl
+  have e1 : (setMinimalif c true).flags.minimalif = true := rfl
+  have e2 : (setMinimalif c false).flags.minimalif = false := rfl
+  simp only [e, e1, e2, Bool.and_false, Bool.false_and, Bool.false_eq_true, if_false]
+  split
+  · split
+    · exact MonoR.refl _
+    · split
+      · exact MonoR.refl _
+      · split
+        · exact MonoR.error_left _ _
+        · exact MonoR.refl _
+  · exact MonoR.refl _
+
+set_option maxHeartbeats 2000000 in
+theorem execOp_minimalif_mono (c : Ctx) (op : Nat) (rest : Bytes) (st : St) :
+    MonoR (execOp (setMinimalif c true) op rest st) (execOp (setMinimalif c false) op rest st) := by
+  unfold execOp
+  split <;> first
+    | exact MonoR.of_eq rfl
+    | exact opIf_minimalif_mono c st _
+    | exact MonoR.of_eq (by rw [opCheckMultisig_minimalif, opCheckMultisig_minimalif])
+
+theorem minimalif_step : StepTightening setMinimalif :=
+  ⟨execOp_minimalif_mono, fun _ _ _ _ _ => rfl, fun _ _ => rfl, fun _ _ => rfl⟩
+
+theorem minimalif_tightening : EvalTightening (fun fl b => { fl with minimalif := b }) where
+  eval := fun fl chk sv xd s st w =>
+    evalScript_mono minimalif_step { flags := fl, sv := sv, chk := chk, xd := xd } s st w
+  sigpushonly := fun _ _ => rfl
+  witness := fun _ _ => rfl
+  p2sh := fun _ _ => rfl
+  cleanstack := fun _ _ => rfl
+  taproot := fun _ _ => rfl
+  dOpSuccess := fun _ _ => rfl
+  dTapVer := fun _ _ => rfl
+  dWitProg := fun _ _ => rfl
+
 end BV.C06.Lemmas
